@@ -13,7 +13,7 @@ ASSUMPTIONS = ['scores are exact decimals in units of 1/1000 in the spec; genera
 
 
 def run(ctx):
-    ctx.model_check('MC_Data', 'MC_C04', workers=8, timeout=1200)
+    ctx.model_check('MC_Data', 'MC_C04_full', workers=8, timeout=1200)
     paths = gen.generate_paths(ctx, 'MC_Data', 'MC_C04_gen', limit=3000 if ctx.quick else 40000)
     ctx.extra_cov['generated_paths'] = len(paths)
     srv = ctx.new_server()
